@@ -193,6 +193,12 @@ impl RK23 {
                 break;
             }
 
+            // Check for step size underflow due to machine rounding
+            if 0.1 * h.abs() <= x.abs() * Float::EPSILON {
+                status = Status::StepSizeTooSmall;
+                break;
+            }
+
             // Check for last step adjustment
             if (x + h - xend) * posneg > 0.0 {
                 h = xend - x;
@@ -298,11 +304,14 @@ impl RK23 {
                     break;
                 }
             } else {
-                // Step rejected
+                // Step rejected (a NaN error estimate shrinks the step as much as allowed)
                 steps.rejected += 1;
-                h *= (safety_factor * err.powf(error_exponent))
-                    .min(1.0)
-                    .max(scale_min);
+                let factor = safety_factor * err.powf(error_exponent);
+                h *= if factor.is_nan() {
+                    scale_min
+                } else {
+                    factor.min(1.0).max(scale_min)
+                };
             }
         }
 
